@@ -47,6 +47,36 @@ func layoutB(n *Node) reflect.Type {
 	return primType(n.Kind)
 }
 
+var layoutCCache = map[reflect.Type]reflect.Type{}
+
+// layoutC: at every level the schema's fields are promoted from an embedded struct (type Doc struct{ Audit }).
+func layoutC(n *Node) reflect.Type {
+	switch n.Kind {
+	case KSlice:
+		return reflect.SliceOf(layoutC(n.Elem))
+	case KPtr:
+		return reflect.PointerTo(layoutC(n.Elem))
+	case KStruct:
+		a := n.GoType()
+		if t, ok := layoutCCache[a]; ok {
+			return t
+		}
+		var fs []reflect.StructField
+		for _, f := range n.Fields {
+			fs = append(fs, reflect.StructField{Name: goFieldName(f.Key), Type: layoutC(f.N), Tag: reflect.StructTag(f.Tag)})
+		}
+		carrier := reflect.StructOf(fs)
+		t := reflect.StructOf([]reflect.StructField{
+			{Name: "ZZfirst", Type: reflect.TypeOf(0)},
+			{Name: "Carrier", Type: carrier, Anonymous: true},
+			{Name: "ZZextra", Type: reflect.TypeOf(""), Tag: `zog:"zzextra"`},
+		})
+		layoutCCache[a] = t
+		return t
+	}
+	return primType(n.Kind)
+}
+
 // relayout copies src into a new value of type dt, matching struct fields by name.
 func relayout(src reflect.Value, dt reflect.Type) reflect.Value {
 	out := reflect.New(dt).Elem()
@@ -72,10 +102,22 @@ func relayout(src reflect.Value, dt reflect.Type) reflect.Value {
 			out.Set(src)
 			return out
 		}
-		for i := 0; i < src.NumField(); i++ {
-			name := src.Type().Field(i).Name
-			out.FieldByName(name).Set(relayout(src.Field(i), out.FieldByName(name).Type()))
+		var copyFields func(sv reflect.Value)
+		copyFields = func(sv reflect.Value) {
+			for i := 0; i < sv.NumField(); i++ {
+				sf := sv.Type().Field(i)
+				if sf.Anonymous {
+					copyFields(sv.Field(i)) // promoted fields: match by their own names
+					continue
+				}
+				of := out.FieldByName(sf.Name)
+				if !of.IsValid() {
+					continue // a field only this layout has
+				}
+				of.Set(relayout(sv.Field(i), of.Type()))
+			}
 		}
+		copyFields(src)
 	default:
 		out.Set(src)
 	}
@@ -99,7 +141,7 @@ func layoutScenario(prop string, accept map[string]bool) func(a *Alpha, ns Named
 					return &mc.Outcome{Sig: "redundant"}
 				}
 			}
-			ta, tb := c.Root.GoType(), layoutB(c.Root)
+			ta, tb, tc := c.Root.GoType(), layoutB(c.Root), layoutC(c.Root)
 			pre := deepCopy(c.Dest.Elem()) // layout A: sentinels (Parse) or the value to validate
 			run := func(rec *Recorder, schemaOf func() z.ZogSchema, dt reflect.Type) *layoutRun {
 				zh.Reset()
@@ -131,7 +173,7 @@ func layoutScenario(prop string, accept map[string]bool) func(a *Alpha, ns Named
 			steps := []struct {
 				name string
 				dt   reflect.Type
-			}{{"first use: type A", ta}, {"second use: type B (same fields, opposite order)", tb}, {"third use: type A again", ta}}
+			}{{"first use: type A", ta}, {"second use: type B (same fields, opposite order)", tb}, {"third use: type A again", ta}, {"fourth use: type C (the fields are promoted from an embedded struct)", tc}}
 			var sig []string
 			for _, st := range steps {
 				got, want := useShared(st.dt), fresh(st.dt)
@@ -150,6 +192,37 @@ func layoutScenario(prop string, accept map[string]bool) func(a *Alpha, ns Named
 					class = "destination"
 				case !eqStrings(got.log, want.log):
 					class = "callbacks"
+				}
+				if class == "" && st.dt == tc {
+					// a destination whose fields are promoted from an embedded struct is addressed by the same names:
+					// a fresh schema must do into it exactly what a fresh schema does into the plain type
+					plain := fresh(ta)
+					out.Traces++
+					eclass := ""
+					switch {
+					case want.obs.Panic != plain.obs.Panic:
+						eclass = "panic"
+					case !eqStrings(want.obs.IssueStrings(), plain.obs.IssueStrings()):
+						eclass = "issues"
+						if len(want.obs.Issues) < len(plain.obs.Issues) {
+							eclass = "issues-missing"
+						}
+					case want.dest != plain.dest:
+						eclass = "destination"
+					}
+					// (the callback logs are not compared across types: they print struct arguments with their Go type)
+					if eclass != "" && accept[eclass] {
+						d := c.Describe()
+						x.Note("schema: %v", d["schema"])
+						x.Note("mode: %v input/value: %v%v", d["mode"], d["input"], d["value"])
+						out.Viol = append(out.Viol, &mc.Violation{
+							Key:      fmt.Sprintf("%s:destination-with-embedded-struct:%s", prop, eclass),
+							What:     "into a destination whose fields are promoted from an embedded struct the schema does not do what it does into the plain struct type",
+							Expected: fmt.Sprintf("panic=%q issues=%v dest=%s callbacks=%v", plain.obs.Panic, plain.obs.IssueStrings(), plain.dest, plain.log),
+							Observed: fmt.Sprintf("panic=%q issues=%v dest=%s callbacks=%v", want.obs.Panic, want.obs.IssueStrings(), want.dest, want.log),
+						})
+						break
+					}
 				}
 				if class == "" || !accept[class] {
 					continue
@@ -197,4 +270,4 @@ func hasStruct(s *Skel) bool {
 	return false
 }
 
-const layoutRule = "one schema object, several destination types: every core case (skeletons containing a struct, any one unit over the reduced alphabets with PostTransforms, both modes) run three times on ONE schema object — into type A, into a type B with the same fields in the opposite order at every level, into A again — each run compared (issues, destination by field name, callback log with arguments) with the same run on a freshly built schema"
+const layoutRule = "one schema object, several destination types: every core case (skeletons containing a struct, any one unit over the reduced alphabets with PostTransforms, both modes) run three times on ONE schema object — into type A, into a type B with the same fields in the opposite order at every level, into A again, into a type C whose fields are promoted from an embedded struct — each run compared (issues, destination by field name, callback log with arguments) with the same run on a freshly built schema"
